@@ -781,8 +781,8 @@ class Tr2(Tr):
         if k == "block":
             if always_exits(s):
                 return self.stmts2(list(s[1]), env, ind, lp)
-            if rest and any(x[0] == "decl" for x in s[1]):
-                raise Refuse(f"{self.fn}: declaration inside a nested block followed by more statements")
+            # a local of a nested block stays visible in what follows the block; harmless: a name can never be declared
+            # twice on one path (refused), so nothing that follows can mean another variable by it
             return self.stmts2(list(s[1]) + rest, env, ind, lp)
         if k == "return":
             if s[1] is None:
@@ -792,11 +792,22 @@ class Tr2(Tr):
             if self.ret == "void":
                 raise Refuse(f"{self.fn}: return with a value in a void function")
             if self.ret == "desc":
+                e0 = self.strip(s[1])
+                if e0[0] == "call" and e0[1] == "insert" and len(e0[2]) == 4:
+                    # `return insert(&cell, parent, key, value);` : the private insert is started in that cell
+                    kk, vv = self.strip(e0[2][2]), self.strip(e0[2][3])
+                    if kk[0] != "id" or env.get(kk[1]) != "key" or vv[0] != "id" or env.get(vv[1]) != "val":
+                        raise Refuse(f"{self.fn}: the private insert is not called with the key and value parameters")
+                    cellt = self.lvaddr(e0[2][0], env)
+                    pt, pty = self.rv(e0[2][1], env, "ptr")
+                    if pty != "ptr":
+                        raise Refuse(f"{self.fn}: parent argument of the private insert is {pty}")
+                    return self.result(f"1, {pt}, {cellt}", ind)
                 t, ty = self.rv(s[1], env, "ptr")
                 cells = [n for n, tt in env.items() if tt == "cellptr"]
-                if ty != "ptr" or len(cells) != 1:
+                if ty != "ptr" or len(cells) > 1:
                     raise Refuse(f"{self.fn}: return in the descent")
-                return self.result(f"0, {t}, {lean_name(cells[0])}", ind)
+                return self.result(f"0, {t}, {lean_name(cells[0]) if cells else 'Cell.root'}", ind)
             t, ty = self.rv(s[1], env, self.ret)
             if ty != self.ret:
                 raise Refuse(f"{self.fn}: returns {ty}, declared {self.ret}")
@@ -1222,6 +1233,20 @@ def translate_header(path):
         raise Refuse("insertThread: cannot isolate the threading statements")
     asts["insertThread"] = (items, [("cellptr", "cell"), ("ptr", "parent"), ("ptr", "item")], "void")
     order2.append("insertThread")
+    # the hinted insert: the neighbour tests in front of the private insert
+    mh = re.search(r"Iterator\s+insert\s*\(\s*const\s+Iterator\s*&\s*(\w+)\s*,\s*const\s+T\s*&\s*(\w+)\s*,"
+                   r"\s*const\s+V\s*&\s*(\w+)\s*\)\s*\{", src)
+    if not mh:
+        raise Refuse("insert(const Iterator&, const T&, const V&) not found")
+    hbody = src[mh.end():balanced(src, mh.end() - 1) - 1]
+    toks = tokenize(hbody)
+    norm["insertHint"] = toks
+    p = P(toks, "insertHint")
+    items = p.block_items()
+    if p.peek() is not None:
+        raise Refuse("insertHint: trailing tokens")
+    asts["insertHint"] = (items, [("ptr", mh.group(1)), ("key", mh.group(2)), ("val", mh.group(3))], "desc")
+    order2.append("insertHint")
     # the head of remove(it): cell computation, the three trivial cases, the choice of the neighbour
     m = re.search(r"Iterator\s+remove\s*\(\s*const\s+Iterator\s*&\s*(\w+)\s*\)\s*\{", src)
     if not m:
